@@ -110,6 +110,30 @@ func addC20Ops(l *OpLib) {
 			p.Txs = []PlannedTx{{Signer: who, Msgs: []sdk.Msg{&tstypes.MsgCancelSpotOrders{Creator: a, SpotOrderIds: sids}}}, {Signer: who, Msgs: []sdk.Msg{&tstypes.MsgCancelPerpetualOrders{OwnerAddress: a, OrderIds: pids}}}}
 		})
 	}
+	l.Add("ts_cancel_everyones_by_own2", "ts_intruder", 0, func(w *World, p *BlockPlan) {
+		// own2 lists its own orders first and then everybody else's (batch owner checks)
+		sids, pids := []uint64{}, []uint64{}
+		for _, o := range pendingSpotOf(w, "own2") {
+			sids = append(sids, o.OrderId)
+		}
+		for _, o := range pendingSpotOf(w, "own1") {
+			sids = append(sids, o.OrderId)
+		}
+		for _, o := range pendingPerpOf(w, "own2") {
+			pids = append(pids, o.OrderId)
+		}
+		for _, o := range pendingPerpOf(w, "own1") {
+			pids = append(pids, o.OrderId)
+		}
+		if len(sids) == 0 {
+			sids = []uint64{1}
+		}
+		if len(pids) == 0 {
+			pids = []uint64{1}
+		}
+		a := w.A("own2").Addr.String()
+		p.Txs = []PlannedTx{{Signer: "own2", Msgs: []sdk.Msg{&tstypes.MsgCancelSpotOrders{Creator: a, SpotOrderIds: sids}}}, {Signer: "own2", Msgs: []sdk.Msg{&tstypes.MsgCancelPerpetualOrders{OwnerAddress: a, OrderIds: pids}}}}
+	})
 	exec := func(name string, extraMissing bool, twice bool) {
 		l.Add(name, "ts_execute", 0, func(w *World, p *BlockPlan) {
 			sids, pids := []uint64{}, []uint64{}
